@@ -851,7 +851,15 @@ class Database:
 
         # set the spatialLocators on each component
         if location is not None:
-            if parent is not None and parent.spatialGrid is not None:
+            # free coordinates are stored (and unpacked) as reals, grid indices as integers
+            isCoordinates = isinstance(location, tuple) and any(
+                isinstance(x, float) for x in location
+            )
+            if (
+                parent is not None
+                and parent.spatialGrid is not None
+                and not isCoordinates
+            ):
                 comp.spatialLocator = parent.spatialGrid[location]
             else:
                 comp.spatialLocator = grids.CoordinateLocation(
